@@ -106,7 +106,7 @@ View == <<cvars, done, ntamp, nbud>>
 \* by the harness' drain operation
 Thin == (given[1] + 3 * given[2] + 7 * slen[1] + 11 * slen[2] + 13 * Len(hist) + 17 * nextid) % EmitEvery = 0
 EmitScripts ==
-  (Idle /\ hist # <<>> /\ (done \/ Thin))
+  (Idle /\ hist # <<>> /\ (done \/ Thin \/ hist[Len(hist)].op = "raw_garbage"))
     => PrintT(<<"SCRIPT", ToJson([mode |-> Mode,
                                    ops |-> IF done THEN hist ELSE Append(hist, [op |-> "drain"])])>>)
 =============================================================================
